@@ -1,11 +1,11 @@
 CHECK = dict(
     level='model_checking', engine='vsched',
     parts=[dict(name='c07rb', src=['harness/c05_ringbuf.c'], cflags=['-DC07', '-Wno-format-truncation'], workers=64,
-                objs=[('@VERIF@/harness/c05_scn.c', ['-fsanitize=thread'])], deadline=dict(quick=120, thorough=1500)),
+                objs=[('@VERIF@/harness/c05_scn.c', ['-fsanitize=thread'])], deadline=dict(quick=400, thorough=3000)),
            dict(name='c07mq', src=['harness/c04_messageq.c'], cflags=['-DC07', '-Wno-format-truncation'], workers=64,
-                objs=[('@VERIF@/harness/c04_scn.c', ['-fsanitize=thread'])], deadline=dict(quick=150, thorough=1800)),
+                objs=[('@VERIF@/harness/c04_scn.c', ['-fsanitize=thread'])], deadline=dict(quick=400, thorough=3000)),
            dict(name='c07fb', src=['harness/c06_fibre.c'], cflags=['-DC07', '-DPROP=6', '-Wno-format-truncation'], workers=64,
-                objs=[('@VERIF@/harness/c06_scn.c', ['-fsanitize=thread'])], deadline=dict(quick=150, thorough=1800)),
+                objs=[('@VERIF@/harness/c06_scn.c', ['-fsanitize=thread'])], deadline=dict(quick=400, thorough=3000)),
            # not a deciding step: the ring buffer and message queue bodies as real free-running pthreads under the real
            # ThreadSanitizer runtime for a few seconds, as an independent cross-check of the detector (thorough tier only)
            dict(name='c07tsan', src=['harness/c07_tsan_free.c'], cflags=['-fsanitize=thread', '-pthread', '-O1'], workers=1,
